@@ -245,6 +245,7 @@ type half struct {
 	finQueued bool   // peer closed its write side; FIN follows the in-flight bytes
 	fin       bool   // FIN delivered: EOF after ready is drained
 	rst       bool   // connection reset
+	rstQueued bool   // a reset is on its way, behind the bytes (and FIN) already in flight
 	blackhole bool   // bytes written from now on vanish (stall)
 	total     int64  // bytes ever queued
 }
@@ -444,7 +445,7 @@ func (c *Conn) SetWriteDeadline(t time.Time) error { c.setDL(&c.wdl, &c.wtm, t);
 
 // Event is something the driver can make happen next.
 type Event struct {
-	Kind string // "dial" | "data" | "fin"
+	Kind string // "dial" | "data" | "fin" | "rst"
 	Key  string // canonical identity: dial id, or conn id + direction
 	Size int    // bytes in flight (data)
 	dial *pendingDial
@@ -478,6 +479,8 @@ func (n *Net) Enabled() []Event {
 				evs = append(evs, Event{Kind: "data", Key: c.id + dir, Size: len(h.inflight), to: ep})
 			} else if h.finQueued && !h.fin && len(h.inflight) == 0 {
 				evs = append(evs, Event{Kind: "fin", Key: c.id + dir, to: ep})
+			} else if h.rstQueued {
+				evs = append(evs, Event{Kind: "rst", Key: c.id + dir, to: ep})
 			}
 		}
 	}
@@ -507,9 +510,10 @@ func (n *Net) Apply(e Event, size int) {
 			size = len(h.inflight)
 		}
 		if e.to.closed {
-			// data arriving at a closed endpoint: dropped, the sender gets a reset
+			// data arriving at a closed endpoint: dropped; a reset travels back to the
+			// sender, behind whatever the closed side had sent before it closed
 			h.inflight = nil
-			e.to.peer.in.rst = true
+			e.to.peer.in.rstQueued = true
 		} else {
 			h.ready = append(h.ready, h.inflight[:size]...)
 			h.inflight = h.inflight[size:]
@@ -517,6 +521,9 @@ func (n *Net) Apply(e Event, size int) {
 		}
 	case "fin":
 		e.to.in.fin = true
+	case "rst":
+		e.to.in.rstQueued = false
+		e.to.in.rst = true
 	}
 	n.cond.Broadcast()
 }
@@ -582,6 +589,25 @@ func (n *Net) CloseAll() {
 	n.dials = nil
 	n.cond.Broadcast()
 	n.mu.Unlock()
+}
+
+// SentBy sums the bytes written so far by the dialer side of every connection
+// (pending dials count one each) whose dial id starts with the given role.
+func (n *Net) SentBy(role string) int64 {
+	n.mu.Lock()
+	defer n.mu.Unlock()
+	var total int64
+	for _, c := range n.conns {
+		if len(c.id) > len(role) && c.id[:len(role)+1] == role+">" {
+			total += c.BytesOut + 1
+		}
+	}
+	for _, d := range n.dials {
+		if d.role == role {
+			total++
+		}
+	}
+	return total
 }
 
 // PendingDials reports unresolved dials (including those hanging).
